@@ -1,6 +1,7 @@
 """C04 (range checker, chiplet selectors, bitwise chiplet, memory chiplet): obligations over the
 real chiplets::enforce_constraints / range::enforce_constraints instantiated symbolically."""
 import os
+import re
 import sys
 import time
 
@@ -57,7 +58,7 @@ def decide_all(ctx, assume, posts, V, prefix, cov, rng, replay_fn=None):
             V.add(name, "discharged", dt)
         elif st == "sat":
             rep = dict(kind="air_chiplet", property=PROP, obligation=name, env={k: str(v) for k, v in info.items()})
-            path = save_replay(PROP, name.replace(":", "_").replace(" ", "_").replace("'", "p")[:80], rep)
+            path = save_replay(PROP, re.sub(r"[^A-Za-z0-9_.=-]", "_", name.replace("'", "p"))[:80], rep)
             confirmed = replay_fn(info) if replay_fn else None
             if confirmed is False:
                 V.add(name, "inconclusive", dt, "model did not reproduce natively")
@@ -278,11 +279,108 @@ def run_memory(meta, V, rng, cov):
     decide_all(ctx, assume, posts, V, "memory", cov, rng, replay)
 
 
+# ---------------------------------------------------------------------------------------------------
+def run_hasher(meta, V, rng, cov):
+    """Hasher chiplet, selector / node-index / state-copy constraints per position class of the 8-row
+    cycle (periodic masks fixed to that position).  The RPO round relation itself (degree-7 S-box) is
+    not encoded: `x -> x^7` being a bijection of the field is a number-theoretic fact outside the
+    ground axioms."""
+    c = meta.cols
+    ch = c["CHIPLETS"]
+    per = meta.periodic
+    if not (per[0] == [0] * 7 + [1] and per[1] == [0] * 6 + [1, 0] and per[2] == [1] + [0] * 7):
+        V.add("hasher:periodic-masks", "violation", detail=f"unexpected cycle masks {per[0]} {per[1]} {per[2]}")
+        return
+    V.add("hasher:periodic-masks", "discharged", detail="k0 = last row, k1 = second to last, k2 = first row of the 8-cycle")
+    n_ark = 24
+    classes = {"last": 7, "first": 0, "middle": 3, "before-last": 6}
+    jobs = []
+    for name, pos in classes.items():
+        pv = {str(i): per[i][pos] for i in range(3 + n_ark)}
+        # hasher rows: chiplet selector s0 = 0 in this row and the next (hasher_flag = 1 - s0)
+        jobs.append({"kind": "transition", "name": f"hasher-{name}", "cur": {str(ch): 0}, "next": {str(ch): 0}, "per": pv})
+    res = dict(zip(classes, airq.run_jobs(jobs, "c04_hasher")))
+    S, H, IDX = c["HASHER_SELECTORS"], c["HASHER_STATE_COLS"], c["HASHER_NODE_INDEX"]
+    for cls, r in res.items():
+        ctx = FieldCtx()
+        ctx.expand_limit = 0
+        idx_all = roots_touching(meta, r, ch, IDX + 1)
+        # leave the 12 RPO round constraints out of the assumption set (they only matter on rows 0..6 and
+        # involve degree-7 products); on the last row they vanish identically (hash_flag = 1 - k0 = 0)
+        memo = {}
+        idx = []
+        for i in idx_all:
+            sup = support(r["arena"], r["roots"][i], memo)
+            ncols = {int(v[1:]) for v in sup if v[0] in "cn" and v[1:].isdigit()}
+            if cls != "last" and len([x for x in ncols if H <= x < H + 12]) > 8:
+                continue
+            idx.append(i)
+        roots = load_dag(ctx, r["arena"], [r["roots"][i] for i in idx])
+        assume = [ctx.is_zero(x) for x in roots]
+        V_ = ctx.value
+
+        def cur(col):
+            return ctx.var(f"c{col}")
+
+        def nxt(col):
+            return ctx.var(f"n{col}")
+
+        s = [V_(cur(S + i)) for i in range(3)]
+        sn = [V_(nxt(S + i)) for i in range(3)]
+        b = V_(cur(IDX) - nxt(IDX).scale(2))
+        sel = lambda a, b_, c_: z3.And(s[0] == a, s[1] == b_, s[2] == c_)  # noqa: E731
+        posts = [("selectors binary", z3.And([z3.Or(x == 0, x == 1) for x in s]))]
+        # the next row is a hasher row too: its selector cells are binary by the same constraints one row later
+        assume += [z3.Or(x == 0, x == 1) for x in sn]
+        if cls == "last":
+            absorb_node = z3.Or(sel(1, 0, 1), sel(1, 1, 0), sel(1, 1, 1))
+            posts += [
+                ("no (0,1,*) selector combination on the last row", z3.Not(z3.And(s[0] == 0, s[1] == 1))),
+                ("ABP: capacity h0..h3 carried to the next row", z3.Implies(sel(1, 0, 0), z3.And([V_(nxt(H + j)) == V_(cur(H + j)) for j in range(4)]))),
+                ("ABP/MPA/MVA/MUA: next row starts with s0' = 0", z3.Implies(z3.Or(sel(1, 0, 0), absorb_node), sn[0] == 0)),
+                ("MPA/MVA/MUA: discarded index bit b = i - 2i' is binary", z3.Implies(absorb_node, z3.Or(b == 0, b == 1))),
+                ("MPA/MVA/MUA: digest h4..h7 carried to h4'..h7' (b=0) or h8'..h11' (b=1)",
+                 z3.Implies(absorb_node, z3.And([z3.If(b == 0, V_(nxt(H + 4 + j)), V_(nxt(H + 8 + j))) == V_(cur(H + 4 + j)) for j in range(4)]))),
+                ("HOUT/SOUT: node index is 0 when a computation ends", z3.Implies(z3.And(s[0] == 0, s[1] == 0), V_(cur(IDX)) == 0)),
+            ]
+        else:
+            keep = z3.And(sn[1] == s[1], sn[2] == s[2])
+            if cls == "before-last":
+                posts.append(("s1, s2 kept unless the next row is an output row", z3.Implies(z3.Not(z3.And(sn[0] == 0, sn[1] == 0)), keep)))
+            else:
+                posts.append(("s1, s2 kept inside the cycle", keep))
+            if cls == "first":
+                start_mp = z3.Or(sel(1, 0, 1), sel(1, 1, 0), sel(1, 1, 1))
+                posts += [("MP/MV/MU start: discarded index bit is binary", z3.Implies(start_mp, z3.Or(b == 0, b == 1))),
+                          ("other first rows keep the node index", z3.Implies(z3.Not(start_mp), V_(nxt(IDX)) == V_(cur(IDX))))]
+            else:
+                posts.append(("node index kept inside the cycle", V_(nxt(IDX)) == V_(cur(IDX))))
+        pos = classes[cls]
+        pvals = [per[i][pos] for i in range(len(per))]
+
+        def replay(env, idx_all=idx_all, pvals=pvals):
+            W = meta.W
+            cu, nx = [0] * W, [0] * W
+            for k, v in env.items():
+                if k[0] == "c" and k[1:].isdigit():
+                    cu[int(k[1:])] = v
+                if k[0] == "n" and k[1:].isdigit():
+                    nx[int(k[1:])] = v
+            cu[ch], nx[ch] = 0, 0
+            out = airq.run_jobs([{"kind": "eval", "cur": [str(x) for x in cu], "next": [str(x) for x in nx], "per": [str(x) for x in pvals]}], "c04_eval")[0]
+            return all(int(out["results"][i]) == 0 for i in idx_all)
+
+        cov["hasher_constraints"] = len(idx_all)
+        # on rows 0..6 the replay would also have to satisfy the RPO round relation: only the last-row class is replayed natively
+        decide_all(ctx, assume, posts, V, f"hasher-{cls}", cov, rng, replay if cls == "last" else (lambda env: None))
+
+
 def run(meta, V, rng, cov):
     run_range(meta, V, rng, cov)
     run_selectors(meta, V, rng, cov)
     run_bitwise(meta, V, rng, cov)
     run_memory(meta, V, rng, cov)
+    run_hasher(meta, V, rng, cov)
 
 
 if __name__ == "__main__":
